@@ -41,7 +41,8 @@ func seq(lo, hi int) []int {
 }
 
 // fixedPMCase builds fixed history k (segments are mined deterministically, like generated ones).
-func fixedPMCase(k int, scratch string) (*PMCase, error) {
+// try > 0 varies the transactions inside the blocks (see spawnPM), nothing of the delivery.
+func fixedPMCase(k, try int, scratch string) (*PMCase, error) {
 	if k < 0 || k >= len(fixedPMNames) {
 		return nil, fmt.Errorf("no fixed pm case %d", k)
 	}
@@ -60,7 +61,7 @@ func fixedPMCase(k int, scratch string) (*PMCase, error) {
 	sp := segSpec{Deputies: nDep, N: n}
 	for i := 0; i < n; i++ {
 		sp.Dt = append(sp.Dt, []int{5, 3, 11, 2, 25, 7}[i%6])
-		sp.TxsPer = append(sp.TxsPer, i%3)
+		sp.TxsPer = append(sp.TxsPer, (i+try)%3)
 	}
 	blocks, sigs, err := mineSegment(w, fx.PathOf(scratch, fmt.Sprintf("mine-fixed-%d", k)), sp)
 	if err != nil {
